@@ -505,6 +505,10 @@ def compute_statistic(statistic, data, mask=None, axis=None, finite=True,
     with warnings.catch_warnings():
         warnings.simplefilter("ignore", category=RuntimeWarning)
         if statistic == 'percentile':
+            # Numpy interpolates between values using the dtype of the data,
+            # which can overflow for small integer types
+            if data.dtype.kind in 'iu':
+                data = data.astype(float)
             return function(data, percentile, axis=axis)
         else:
             return function(data, axis=axis)
